@@ -13,7 +13,8 @@ LEVEL_NOTE = ("theorems are about model/Decimal.v + model/Scaling.v + model/Valu
               "the model has one zero per exponent, so the SIGN of a zero result (Decimal('-0.0')) is not compared - values are; "
               "exponents stay far inside Emin/Emax (no overflow/underflow/clamp branch of the context is modelled); "
               "Decimal(str) parsing is trusted (operands enter the model as as_tuple()); "
-              "outside: float signals (is_float, float_factory(float)), str inputs that are not labels (only 'raises' is tied), "
+              "outside: float signals (is_float, float_factory(float)), str inputs that are not labels (tied only: parsed by the trusted Decimal(str) "
+              "or raising; NaN/Infinity texts that are no label are skipped), "
               "phys2raw(None), factors whose float() underflows to 0.0; scalings whose exact product or result needs more than 28 "
               "significant digits are outside the property's quantifier: they are tied to the model but not judged by the search")
 
@@ -32,6 +33,11 @@ SCALINGS = [
     # beyond the 28-digit envelope for most raw values (tied, counted, not judged)
     ("1E-15", "1E+15"), ("0.3333333333333333333333333333", "0"), ("1E-30", "1"), ("0.1", "1E-27"),
 ]
+
+
+# value choices spelled like numbers (they are labels all the same) and special texts
+NUMERIC_LOOKING = ["0", "1", "2", "7", "-3", "+4", "10", "255", "1e2", "2.5e1", "1E+1", "1E-2", " 7 ", " 12", "0.5", ".5", "5.",
+                   "12.50", "-0.0", "1_0", "Infinity", "-Infinity", "inf", "NaN", "nan", "sNaN", "-NaN123"]
 
 
 def mk(m, e):
@@ -226,7 +232,8 @@ def run(chk):
                 "zeros, negatives, exact ties at the rounding digit, 99..9 carries, 28/29-digit results, cancellation, far-apart "
                 "exponents, exact and inexact quotients.  signals: %d scalings (non-dyadic, negative, exponent notation, 12-digit, "
                 "factor zero) x widths 1..12 x signed/unsigned with EVERY raw value; widths 13..64 at both ends, around 0 and random "
-                "interior; value tables of 0..20 labels (duplicate labels, int/str key collisions); phys2raw on labels and on "
+                "interior; value tables of 0..20 labels (duplicate labels, int/str key collisions, about 30%% of the labels spelled like "
+                "numbers: '1', '2.5e1', ' 7 ', 'NaN', ... on keys they do not scale to); phys2raw on labels and on "
                 "arbitrary decimals incl. exact .5 ties.  non-trivial = scaling other than (1, 0) with raw != 0, or a table "
                 "look-up, or a rounding decimal operation; distinct by inputs" % len(SCALINGS))
     ok = chk.build_and_audit()
@@ -279,6 +286,8 @@ def run(chk):
         for j in range(n):
             k = rng.choice([rng.randrange(lo, hi + 1), rng.randrange(lo, hi + 1), rng.randrange(max(lo, -4), min(hi, 8) + 1), hi, lo, hi + 1 + j])
             lab = "L%d" % (j if rng.random() < 0.85 else rng.randrange(0, max(1, j)))
+            if rng.random() < 0.3:
+                lab = rng.choice(NUMERIC_LOOKING)     # a value choice spelled like a number is still a label
             key = str(k) if rng.random() < 0.25 else k
             src.append((key, lab))
         d = {}
@@ -286,8 +295,21 @@ def run(chk):
             d[k] = v                      # what the caller's mapping looks like (a dict): later duplicates of the SAME key object win
         return d
 
+    label_ids = {}
+
     def lab_id(lab):
-        return int(lab[1:]) + 1
+        """labels are interned as positive integers (0 = the text 'zz' that is never a label)"""
+        if lab not in label_ids:
+            label_ids[lab] = len(label_ids) + 1
+        return label_ids[lab]
+
+    def parse_dec(text):
+        """what decimal.Decimal(text) makes of a str: ('num', Decimal) | ('special', Decimal) | ('invalid', None)"""
+        try:
+            v = D(text)
+        except decimal.InvalidOperation:
+            return "invalid", None
+        return ("num", v) if v.is_finite() else ("special", v)
 
     def run_signal(si, fs, os_, size, signed, raws, table_src, tie_raws, cache):
         """build the signal, evaluate the property on it (every raw of `raws`), record tie cases (raws in `tie_raws`);
@@ -405,20 +427,30 @@ def run(chk):
         traws = [r for r in raws if r in tie_raws]
         if traws:
             add(403, [header, tflat, traws], out403, dict(signal=inp, raws=traws if len(traws) <= 40 else "%d raw values %d..%d" % (len(traws), traws[0], traws[-1])))
-        # -- labels
-        labs = sorted(set(exp_table.values())) + ["zz"]
-        out405 = []
-        for lab in labs:
+        # -- str arguments: every label of the table (whatever it looks like) converts to its key; the table scan
+        #    precedes decimal.Decimal(text).  Texts that are no label are tied only (parsed as numbers or raising).
+        labs = sorted(set(exp_table.values()))
+        others = ["zz"] + [t for t in rng.sample(NUMERIC_LOOKING, 4) if t not in exp_table.values()]
+        out405, out406, args406, texts406 = [], [], [], []
+        for lab in labs + others:
             try:
                 r = sig.phys2raw(lab)
                 got = [1, r]
-            except (decimal.InvalidOperation, ValueError, TypeError):
+            except Exception:
                 r, got = None, [0]
-            if lab != "zz" and exp_table:
+            kind, pv_ = parse_dec(lab)
+            if lab in labs:
                 keys = [k for k, v in exp_table.items() if v == lab]
                 chk.count("label-unique" if len(keys) == 1 else "label-duplicated")
                 chk.case((fs, os_, size, signed, "label", lab, tuple(exp_table.items())), True)
-                if r != keys[0]:
+                if kind != "invalid":
+                    # does the label, read as a number, scale to another raw value than its key?
+                    try:
+                        as_num = round((Fraction(pv_) - O) / F) if kind == "num" else None
+                    except Exception:
+                        as_num = None
+                    chk.count("label-numeric-looking:%s" % ("scales-elsewhere" if as_num != keys[0] else "coincides-with-key"))
+                if r != keys[0] or type(r) is not int:
                     chk.violation("label-to-raw", "a label does not convert to its raw key", dict(inp, label=lab), keys[0], r)
                 elif len(keys) == 1:
                     try:
@@ -427,8 +459,16 @@ def run(chk):
                         nv = repr(e)
                     if nv != lab:
                         chk.violation("label-roundtrip", "label -> raw -> named value does not return the label", dict(inp, label=lab), lab, str(nv))
-            out405.append(got)
-        add(405, [header, tflat, [lab_id(l) if l != "zz" else 0 for l in labs]], out405, dict(signal=inp, labels=labs))
+                out405.append(got)
+            elif lab == "zz":
+                out405.append(got)
+            if kind == "special" and lab not in labs:
+                continue                               # NaN/Infinity texts that are no label: outside the model
+            texts406.append(lab)
+            args406 += [lab_id(lab) if lab != "zz" else 0] + ([1] + tup(pv_) if kind == "num" else [0, 0, 0])
+            out406.append(got if isinstance(got[-1], int) else [0])
+        add(405, [header, tflat, [lab_id(l) for l in labs] + [0]], out405, dict(signal=inp, labels=labs + ["zz"]))
+        add(406, [header, tflat, args406], out406, dict(signal=inp, str_arguments=texts406))
         # -- phys2raw of arbitrary decimals (rounding mechanism): exact quotient representable => round-half-even of it
         vs = []
         for _ in range(6 if not thorough else 12):
